@@ -607,7 +607,9 @@ def conversion_obligations(res: Result, tree, rule: str) -> int:
                 res.add(rule, f"{m.relpath}:{getattr(node, 'lineno', f.node.lineno)}", f"specs.{fname}", f"{cn} branch wires {want}", ok, why)
                 count += 1
         missing = [c for c in table if c not in names]
-        res.add(rule, f.loc(), f"specs.{fname}", "every array spec kind has a conversion branch", not missing, f"branches {names}" if not missing else f"missing {missing}")
+        verdict_b = (not missing) if names else None     # no branch read at all: the dispatch is written in a form that is not compared
+        res.add(rule, f.loc(), f"specs.{fname}", "every array spec kind has a conversion branch", verdict_b,
+                f"branches {names}" if not missing else (f"missing {missing}" if names else "dispatch not in a recognised form (no isinstance path read)"))
         count += 1
         # nested: recursion over children
         rec = any(dst == f.qual for src, dst in v.call_edges)
